@@ -1,5 +1,6 @@
 """C15 — exposing ports copies exactly the selected ports, independently of the source."""
 import itertools
+import copy
 import multiprocessing as mp
 
 from harness import common
@@ -16,7 +17,8 @@ TRUSTED = ['selection model lean/PlumpyModel/Expose/Model.lean (hand-written mir
            'compared with the real absorb on every case', 'copy.copy / copy.deepcopy (Python runtime)']
 
 NAMES = ['a', 'ab', 'abc', 'b', 'a_b', 'x']
-LEAF_ATTRS = [dict(), dict(valid_type=int), dict(required=False), dict(default=3), dict(help='h'), dict(valid_type=str, required=False)]
+LEAF_ATTRS = [dict(), dict(valid_type=int), dict(required=False), dict(default=3), dict(help='h'), dict(valid_type=str, required=False),
+              dict(default={'cut': [1, 2]})]       # a mutable default: changed IN PLACE by the independence probe
 NS_PROPS = ['dynamic', 'required', 'valid_type', 'help', 'populate_defaults']
 
 
@@ -131,7 +133,7 @@ def build(ns, tree, plumpy):
     from plumpy.ports import PortNamespace, InputPort
     for nm, attr, sub in tree:
         if sub is None:
-            ns[nm] = InputPort(nm, **LEAF_ATTRS[attr])
+            ns[nm] = InputPort(nm, **copy.deepcopy(LEAF_ATTRS[attr]))
         else:
             ns[nm] = PortNamespace(nm, **attr)
             build(ns[nm], sub, plumpy)
@@ -268,6 +270,8 @@ def run_impl(case):
         if isinstance(port, PortNamespace):
             port['newport'] = InputPort('newport')
             port.dynamic = not port.dynamic
+        elif port.has_default() and isinstance(port.default, dict):
+            port.default['cut'].append(9)          # in place: a shallow copy of the port would share this object
     target.help = 'mutated-top'
     if snapshot(src_ns) != src_before:
         F('c15-source-changed-by-destination', 'later changes to the destination do not show through to the source', None)
@@ -277,6 +281,8 @@ def run_impl(case):
         port.required = not port.required
         if isinstance(port, PortNamespace):
             port['srcnew'] = InputPort('srcnew')
+        elif port.has_default() and isinstance(port.default, dict):
+            port.default['cut'].append(7)
     if snapshot(dst_ns) != dst_mid:
         F('c15-destination-changed-by-source', 'later changes to the source do not show through to the destination', None)
     return obs, fails
